@@ -39,6 +39,12 @@ def perturb(r, x):
 
 def gen_case(r):
     d0, s0, _ = c15.gen_case(r)
+    if r.pct() < 35 and s0.rules:
+        # a shared condition with data-path arguments (resolved against each validated document)
+        from . import c17
+        i = r.below(len(s0.rules))
+        rl = s0.rules[i]
+        s0 = SchemaT(s0.rules[:i] + [rl.replace(cond=c17.gen_leaf_with_paths(r, d0), cast=None)] + s0.rules[i + 1:])
     schemas = [s0]
     if r.coin(40):
         schemas.append(G.schema_for(r, d0, min_rules=1, max_rules=3, mode="typed", cast_p=0, cond_depth=2))
